@@ -244,11 +244,21 @@ impl<T> RcInner<T> {
 
     #[inline]
     pub(crate) fn is_not_destructed(&self) -> bool {
+        let epoch = global_epoch();
         let mut old = State::from_raw(self.state.load(Ordering::SeqCst));
-        while !old.destructed() && old.strong() == 0 {
+        while !old.destructed() {
+            // If the count is zero, create a permission so that the pending `try_destruct`
+            // defers the destruction again. In any case, mark the current epoch: a non-zero
+            // count may be only the link of an already unreachable parent, whose cascade must
+            // not reclaim this object immediately while the caller is in its critical section.
+            let new = if old.strong() == 0 {
+                old.add_strong(1)
+            } else {
+                old
+            };
             match self.state.compare_exchange(
                 old.as_raw(),
-                old.add_strong(1).as_raw(),
+                new.with_epoch(epoch).as_raw(),
                 Ordering::SeqCst,
                 Ordering::SeqCst,
             ) {
@@ -256,7 +266,7 @@ impl<T> RcInner<T> {
                 Err(curr) => old = State::from_raw(curr),
             }
         }
-        !old.destructed()
+        false
     }
 }
 
